@@ -78,7 +78,17 @@ def main(argv=None):
         rep.units = ctx.meta['units'].get('C', [])
         rc = rulemod.run(ctx, rep)
         if tier == 'thorough' and rc == 0 and not os.environ.get('NSA_NO_SELFTEST'):
-            rc = thorough_extra(pid, a.repo, rc)
+            # the verdict about the tree is in; the corpus measurement that follows only extends the evidence file (each of its runs has its own
+            # time budget) and must not be able to change the verdict
+            try:
+                signal.alarm(0)
+            except Exception:
+                pass
+            try:
+                rc = thorough_extra(pid, a.repo, rc)
+            except Exception as e:
+                print('%s selftest: not completed (%s: %s); the verdict above stands' % (pid, type(e).__name__, e))
+                rc = 0
         return rc
     except AnalysisBroken as e:
         print('ANALYSIS-BROKEN property=%s %s' % (pid, e))
